@@ -171,6 +171,7 @@ MatchesTag(M, v) ==
     [] M[1] = "mproxy" -> v[1] = "mappingproxy"
     [] M[1] = "ntuple" -> v[1] = "nt" /\ v[2] = M[2]
     [] M[1] = "dc" -> v[1] = "obj" /\ v[2] = M[2]
+    [] M[1] = "stype" -> v[1] = "sobj" /\ v[2] = M[2]
     [] M[1] = "opt" -> v[1] = "none" \/ MatchesTag(M[2], v)
     [] M[1] = "union" -> \E i \in DOMAIN M[2] : MatchesTag(M[2][i], v)
     [] M[1] = "literal" -> \E i \in DOMAIN M[2] :
@@ -268,6 +269,10 @@ PackB(T, cx, v) ==
     [] T[1] = "opt" -> IF IsNone(v) THEN None ELSE Pack(T[2], cx, v)
     [] T[1] = "union" -> PackMembers(T[2], cx, v, 1)
     [] T[1] = "newtype" -> Pack(T[3], cx, v)
+    \* <<"stype", name, A>>: a user class implementing SerializableType with use_annotations=True whose _serialize() -> A hands out
+    \* the wrapped value and whose _deserialize(value: A) wraps it again; a value is <<"sobj", name, x>> with x a value of A.
+    \* The library converts what _serialize returns / what _deserialize receives by the annotation A
+    [] T[1] = "stype" -> IF v[1] = "sobj" THEN Pack(T[3], cx, v[3]) ELSE <<"#illtyped">>
     [] T[1] \in {"final", "annotated"} -> Pack(T[2], cx, v)
     [] T[1] \in {"fwd", "tvarc", "tvarb"} -> Pack(T[3], cx, v)          \* forward reference <<"fwd", name, T>>: the class is defined later, same meaning
     [] T[1] = "dc" -> PackDC(T, cx, v)
